@@ -160,6 +160,47 @@ def units(w):
                 it.check("post:no-int-constructed-on-this-path", True)
         U.append(Unit(f"functions.py::{cname}.execute", setup, post, name=f"functions.py::{cname}.execute[int results are ints]",
                       abstractions=DATE_ABS, config={"max_unroll": 12, "max_depth": 40}, prepare=c13.install_streams, replay=replay_rt))
+    # values built from host data (parse_json): every host kind becomes the value kind that renders as that kind's literal --
+    # in particular a host bool is a boolean value, never an int value holding True (which would render as `True`)
+    def conv_unit(hostkind):
+        def setup(it):
+            from pyvc.values import PDict
+            f = Obj(funcs["FuncParseJson"], {"name": "parse_json", "secure": True})
+            obj = {"str": lambda: it.fresh_str("j"), "int": lambda: it.fresh_int("j"), "float": lambda: it.fresh_float("j"), "bool": lambda: it.fresh_bool("j"),
+                   "list": lambda: PList([it.fresh_int("e0"), it.fresh_bool("e1")]), "dict": lambda: PDict([["k", it.fresh_bool("v")]])}[hostkind]()
+            return [f, obj], {}, {"obj": obj}
+
+        def check_atom(it, v, hk, where):
+            from pyvc.values import SFloat
+            want = {"str": "ValueString", "int": "ValueInt", "float": "ValueDecimal", "bool": "ValueBoolean"}[hk]
+            it.check(f"post:{where}: a host {hk} becomes a {want}", cls_name(v) == want, detail=cls_name(v) or type(v).__name__)
+            if cls_name(v) == "ValueInt":
+                pv = v.fields["value"]
+                it.check(f"post:{where}: the payload of the int value is an int, not a bool", isinstance(pv, (int, SInt)) and not isinstance(pv, (bool, SBool)))
+            if cls_name(v) == "ValueBoolean":
+                it.check(f"post:{where}: booleans are the two singletons", v is V.TRUE or v is V.FALSE)
+
+        def post(it, c, o):
+            if o.kind != "return":
+                it.check("post:returns", False)
+                return
+            if hostkind in ("str", "int", "float", "bool"):
+                check_atom(it, o.value, hostkind, "atom")
+            elif hostkind == "list":
+                items = o.value.fields["value"].items if cls_name(o.value) == "ValueList" else None
+                it.check("post:a host list becomes a list value of the same length", items is not None and len(items) == 2)
+                if items is not None and len(items) == 2:
+                    check_atom(it, items[0], "int", "element 0")
+                    check_atom(it, items[1], "bool", "element 1")
+            else:
+                ents = o.value.fields["value"].entries if cls_name(o.value) in ("ValueMap", "ValueObject") else None
+                it.check("post:a host dict becomes a map value with the same keys", ents is not None and len(ents) == 1)
+                if ents:
+                    check_atom(it, ents[0][1], "bool", "member value")
+        return Unit("functions.py::FuncParseJson.convertObj", setup, post, name=f"functions.py::FuncParseJson.convertObj[host {hostkind}]", allowed=(),
+                    config={"max_depth": 30}, bounded=("containers of the stated shape" if hostkind in ("list", "dict") else None))
+    for hk in ("str", "int", "float", "bool", "list", "dict"):
+        U.append(conv_unit(hk))
     return U
 
 
@@ -260,6 +301,34 @@ def bounded(tier, seed):
             fails.append({"id": f"bounded:round-trip[{kind}]", "input": f"{kind} rendered as {text!r}", "observed": obs, "expected": "an equal value of the same type rendering to the same text"})
         if getattr(val, "permuted", False):
             (canon_sets if kind == "ValueSet" else canon_maps).add(text)
+    # data values produced by library functions from host data / by mutation (not by literals)
+    for src in ["""parse_json('[0, 1, true, false, 2.5, "s"]')""", """parse_json('{"a": true, "b": [false, 1]}')""", "set(parse_json('[true, 1, 0]'))",
+                "set(parse_json('[0, 1, true]'))", "def m = <<<>>>; m[NULL] = 1; m[TRUE] = 2; m", "[int('7'), decimal('2'), boolean('1' == '1')]",
+                "[1 == 1, length('ab'), 7 / 2, 7.0 / 2, round(2.5), abs(-3)]", "<<NULL>>", "[NULL, [NULL]]"]:
+        ev += 1
+        try:
+            val = I.interpret(src, "-")
+            text = str(val)
+            back = I.interpret(text, "-")
+            ok = (back == val) and type(back) is type(val) and str(back) == text
+            obs = f"{text} evaluates to {type(back).__name__} {back}"
+        except Exception as e:
+            ok, obs = False, repr(e)
+        if not ok:
+            fails.append({"id": "bounded:round-trip[value built by a library function]", "input": src, "observed": obs, "expected": "an equal value of the same type rendering to the same text"})
+    # patterns whose text cannot stand between // and //: each shape is its own obligation (known findings are listed per shape)
+    for shape, src in (("empty text", "pattern('')"), ("leading slash", "pattern('/a')"), ("trailing slash", "pattern('a/')"), ("double slash inside", "pattern('a//b')")):
+        ev += 1
+        try:
+            val = I.interpret(src, "-")
+            text = str(val)
+            back = I.interpret(text, "-")
+            ok = (back == val) and type(back) is type(val) and str(back) == text
+            obs = f"{text} evaluates to {type(back).__name__} {back}"
+        except Exception as e:
+            ok, obs = False, f"{text if 'text' in dir() else src}: {e!r}"
+        if not ok:
+            fails.append({"id": f"bounded:round-trip[pattern without a literal form: {shape}]", "input": src, "observed": obs, "expected": "an equal pattern rendering to the same text"})
     if len(canon_sets) > 1 or len(canon_maps) > 1:
         fails.append({"id": "bounded:rendering-independent-of-insertion-order", "input": "all 24 insertion orders of 4 elements", "observed": str(sorted(canon_sets)[:2] + sorted(canon_maps)[:2]), "expected": "one rendering per value"})
     seen, uniq = set(), []
